@@ -168,7 +168,8 @@ def main():
     ck.cov['trusted_base'] = ['Coq 8.16.1 kernel + VM', 'TbModel.v hand model of hextb.cpp run()/handleSyscall()/load(), tied by this run',
                               'generated RTL semantics (tools/vl2coq.py) and the clocking/first-eval semantics of RtlSem.v', 'Verilator 5.006 (the Verilated model is the implementation under test)',
                               'harness/tb_harness.cpp (plants state through --public-flat-rw, calls hextb.cpp\'s own load/run)']
-    ck.assumptions = ['power-on states are enumerated (seeds + planted adversarial states + fills), not proved exhaustively on the Verilated model; the theorem quantifies over all of them on the model']
+    ck.assumptions = ['KNOWN FINDING (known_findings.json, kind first-instruction-svc): a binary whose byte 0 is OPR SVC -- hextb never samples that request (hypothesis "first instruction is not a system call" of C13_seed_independent / C13_run_is_isa); exhibited on every run by two hand-assembled binaries',
+                      'power-on states are enumerated (seeds + planted adversarial states + fills), not proved exhaustively on the Verilated model; the theorem quantifies over all of them on the model']
     status = gen_rtl.generate_all()          # TbProofs is about the design regenerated from the working tree
     if status.get('hex'):
         ck.broken.append('translation of the hex top failed: %s' % status['hex'])
@@ -259,6 +260,30 @@ def main():
                     judge('fill', 'seed=%d %s' % (seed, desc), parse_h(o))
                     rc, o, e = run3([tbh, b, str(seed), '0', 'probe=1'] + desc.split(), cwd=d, stdin=open(ip, 'rb'), timeout=120)
                     judge('probe', 'seed=%d %s probe' % (seed, desc), parse_h(o), probe=True)
+    # ---- known finding inside the literal quantifier (known_findings.json, kind first-instruction-svc): the request of the
+    # instruction at byte 0 is never sampled by the testbench -- for every power-on state alike, but not what hexsim/the ISA do
+    exhibits = []
+    for sname, (simg, sinp, kind, sim_does, tb_does) in sorted(tbcommon.known_shapes().items()):
+        if kind != 'first-instruction-svc':
+            continue
+        b = os.path.join(d, 'shape-%s.bin' % sname)
+        open(b, 'wb').write(simg)
+        ip = os.path.join(d, 'shape.in')
+        open(ip, 'wb').write(sinp)
+        ref_rc, ref_out = reference(hexsim, b, sinp, d)
+        got = []
+        for s_ in (1, 2, 3, 4):
+            rc, o, e = run3([hextb, b, '--max-cycles', '2000', '+verilator+seed+%d' % s_], cwd=d, stdin=open(ip, 'rb'), timeout=120)
+            o = o.split(b'\n', 1)[1] if o.startswith(b'Wrote ') and b'\n' in o else o
+            got.append((rc & 0xff, o))
+        ck.cov['evaluations'] += 1
+        differs = any(g != (ref_rc & 0xff, ref_out) for g in got)
+        exhibits.append({'shape': sname, 'differs': differs, 'same_for_all_seeds': len(set(got)) == 1, 'hexsim': [ref_rc & 0xff, ref_out.decode('latin1')], 'hextb': [[g[0], g[1].decode('latin1')] for g in got]})
+        if differs:
+            ck.violation('%s: hexsim %s (exit %d, output %r); hextb for seeds 1..4 %s: %s' % (sname, sim_does, ref_rc & 0xff, ref_out, tb_does, got),
+                         {'program': 'shape/' + sname, 'binary_hex': simg.hex(), 'input': list(sinp), 'hextb': [[g[0], list(g[1])] for g in got]},
+                         tags={'kind': 'first-instruction-svc'})
+    ck.cov['known_finding_exhibits'] = exhibits
     # ---- tie for the model: extracted TbModel.run (hextb.cpp's loop over the generated RTL) vs hextb.cpp's own run() in the harness
     corr = model_correspondence(ck, d, tbh, [p for p in progs if p[0] in ('exit7', 'echo', 'sum')])
     ck.cov['model_correspondence'] = corr
